@@ -554,6 +554,7 @@ type AnimEncoder struct {
 	countSinceKeyframe int                // Frames since the last keyframe.
 	prevFrameRect      image.Rectangle    // Bounding rect of previous frame (for dispose-bg). Always valid after a frame is committed.
 	prevMuxIndex       int                // Index of previous frame in muxer (for retroactive dispose update).
+	hasICC, hasEXIF, hasXMP bool          // Metadata currently set on the muxer (non-nil blob).
 }
 
 // sanitizeKeyframeOptions adjusts kmin/kmax to valid ranges, matching the
@@ -1213,16 +1214,19 @@ func (e *AnimEncoder) AddRawFrame(bitstreamData []byte, duration time.Duration, 
 // SetICCProfile sets the ICC color profile for the output file.
 func (e *AnimEncoder) SetICCProfile(data []byte) {
 	e.muxer.SetICCProfile(data)
+	e.hasICC = data != nil
 }
 
 // SetEXIF sets EXIF metadata for the output file.
 func (e *AnimEncoder) SetEXIF(data []byte) {
 	e.muxer.SetEXIF(data)
+	e.hasEXIF = data != nil
 }
 
 // SetXMP sets XMP metadata for the output file.
 func (e *AnimEncoder) SetXMP(data []byte) {
 	e.muxer.SetXMP(data)
+	e.hasXMP = data != nil
 }
 
 // Close finalizes the animation and writes the WebP file to the writer.
@@ -1247,7 +1251,9 @@ func (e *AnimEncoder) Close() error {
 	// Single-frame optimization: if there is exactly 1 frame and we have
 	// the canvas image and the simple encoder, try encoding as a simple
 	// WebP and pick the smaller output.
-	if e.frameCount == 1 && e.prevCanvas != nil && SimpleEncodeFunc != nil {
+	// The simple file carries none of the ICC/EXIF/XMP set on the encoder, so
+	// the optimization only applies when no metadata was set.
+	if e.frameCount == 1 && e.prevCanvas != nil && SimpleEncodeFunc != nil && !(e.hasICC || e.hasEXIF || e.hasXMP) {
 		simpleData, err := SimpleEncodeFunc(e.prevCanvas, e.opts.Lossless, float32(e.opts.Quality))
 		if err == nil && len(simpleData) > 0 && len(simpleData) < len(animData) {
 			_, writeErr := e.w.Write(simpleData)
